@@ -246,10 +246,14 @@ def programs():
     for sh in tharness.all_shapes():
         if sh.name.startswith('enum_') and int(sh.name[5:]) % 10:
             continue
-        parts = [q for q in family.partitions(sh.slots) if tharness.compiles(sh, q, [])]
+        parts = [q for q in family.var_partitions(sh, 60) if tharness.compiles(sh, q, [])]
         if parts:
             out.append(family.render(sh, tharness.canon(sh, parts[-1], [])))
+            if len(parts) > 1:
+                # few distinct names: bindings and reads of one name share lines (cursor-line positions)
+                out.append(family.render(sh, tharness.canon(sh, parts[0], [])))
     out += [
+        'y = 1\nz = [xx for xx in y]\nw = (q := 1) + q; v = w\nfor k in k: k = k\n',
         'import os, sys as system\nfrom os import path as p, sep\nfrom os.path import (join,\n    split as sp)\nprint(system, p, sep, join, sp)\n',
         '@property\nasync def de(x, *a, k=1, **kw):\n    async with x as y: pass\n    async for z in y: pass\n    return a, k, kw, z\n',
         'class  Cl (object):\n    class In: pass\n    def  In2(self): return self\n',
